@@ -191,6 +191,9 @@ def run(tier, seed, replay=None):
             if m_:
                 muts.append((m_, d_))
     sqls += muts
+    # long operator chains: the parser builds a tree as deep as the chain is long
+    DEEP = [('select * from t where ' + ' and '.join(f'a{i} = {i}' for i in range(n)), 'mindsdb') for n in (60, 120, 250)]
+    sqls += DEEP
     rows = []
     evaluations = 0
     stats = {'shared_objects': 0, 'mutations': 0, 'mutations_visible_in_original': 0}
@@ -213,7 +216,13 @@ def run(tier, seed, replay=None):
         try:
             c = t.copy()
         except Exception as e:
-            fail('copy_raises', {'sql': s, 'exception': repr(e)})
+            nterms = s.count(' and ') + s.count(' or ') + 1
+            deep = [f for f in findings if f['classifier'].get('kind') == 'copy_raises_on_deep_tree'
+                    and type(e).__name__ == f['classifier']['exception'] and nterms >= f['classifier']['min_chain']]
+            if deep:
+                R.known_finding(f'{deep[0]["id"]}: {deep[0]["what"]}')
+            else:
+                fail('copy_raises', {'sql': s[:300], 'exception': repr(e)[:200], 'chain_length': nterms})
             continue
         keep = []
         table = {}
